@@ -38,9 +38,9 @@ def lexer_two_copy(chk, tier):
         return z3.Or(*[z3.And(lm.tok_at(p), lm.tokEnd[p] > i, pred(p)) for p in range(i + 1)])
     for mode in ('whitespace', 'case'):
         t0 = time.time()
-        if mode == 'case' and tier == 'quick':
-            # the case query is the expensive one: 6 characters in the quick tier
-            N = 6
+        if mode == 'case':
+            # the case query is the expensive one: 6 characters in the quick tier, 7 in the thorough one
+            N = 6 if tier == 'quick' else 7
             l1 = lexsmt.LexModel(tb, N, 'a')
             l2 = lexsmt.LexModel(tb, N, 'b')
             d1 = splitchar.SliceDomain(l1, tb, vars(SS))
